@@ -233,6 +233,57 @@ func c12WithConst(t *c12Tpl) *c12Tpl {
 	return &c
 }
 
+// c12ManyTextsCase: n text statements whose body is a poryswitch, then a
+// script, a movement and a mart with one each: every one of them selects its
+// case as if it were the only poryswitch of the file.
+func c12ManyTextsCase(n int) *Case {
+	atoms := &AtomTable{Coded: true}
+	key := atoms.New(ClsIdent, "swkey", "")
+	val := atoms.New(ClsIdent, "swval", "", "_")
+	cmd := atoms.New(ClsPlainCmd, "cmd", "")
+	var sb strings.Builder
+	for i := 0; i < n; i++ {
+		fmt.Fprintf(&sb, "text ManyText%d {\n  poryswitch(%s) {\n    %s: \"sel %d$\"\n    _: \"other$\"\n  }\n}\n", i, key.Placeholder(), val.Placeholder(), i)
+	}
+	fmt.Fprintf(&sb, "script AfterTexts {\n  poryswitch(%s) {\n    %s { %s }\n    _ { end }\n  }\n}\nmovement AfterMove {\n  poryswitch(%s) {\n    %s: walk_up\n    _: walk_down\n  }\n}\nmart AfterMart {\n  poryswitch(%s) {\n    %s: ITEM_A\n    _: ITEM_B\n  }\n}",
+		key.Placeholder(), val.Placeholder(), cmd.Placeholder(), key.Placeholder(), val.Placeholder(), key.Placeholder(), val.Placeholder())
+	prog := &Program{Atoms: atoms, Tops: []interface{}{&TopRaw{Text: sb.String()}}}
+	cs := &Case{Name: fmt.Sprintf("c12/many-text-poryswitches/%d", n), Prog: prog, NonTrivial: true,
+		Variants: []Variant{{Name: "opt", Opt: CompileOpts{Optimize: true, SwKeys: []Tok{A(key)}, SwVals: []Tok{A(val)}}}},
+		Shape:    c12Shape{Template: fmt.Sprintf("many-text-poryswitches-%d", n)}, MaxPaths: 16}
+	cs.Oracle = func(x *OracleCtx) *Violation {
+		res := x.Res["opt"]
+		if res.Err.IsErr || res.Err.Panic != "" {
+			return &Violation{Sub: "accept", Msg: "the program with the poryswitches is rejected: " + interp.ToString(res.Err.Msg) + res.Err.Panic}
+		}
+		lines := nonBlank(outputLines(res.Out, false))
+		count := func(w interp.Value) int {
+			k := 0
+			for _, l := range lines {
+				if sameValue(x.C, l, w) == 1 {
+					k++
+				}
+			}
+			return k
+		}
+		for i := 0; i < n; i++ {
+			if count(fmt.Sprintf("\t.string \"sel %d$\"", i)) != 1 {
+				return &Violation{Sub: "equivalence", Msg: fmt.Sprintf("text %d does not carry its selected case exactly once", i)}
+			}
+		}
+		for _, w := range []interp.Value{cat("\t", cmd.Val), "\twalk_up", "\t.2byte ITEM_A"} {
+			if count(w) != 1 {
+				return &Violation{Sub: "equivalence", Msg: "the selected case " + interp.ToString(w) + " after the texts is not emitted exactly once"}
+			}
+		}
+		if count("\t.string \"other$\"")+count("\twalk_down")+count("\t.2byte ITEM_B") != 0 {
+			return &Violation{Sub: "equivalence", Msg: "content of a '_' case is emitted although the named case matches"}
+		}
+		return nil
+	}
+	return cs
+}
+
 func c12Case(t *c12Tpl, lint bool) *Case {
 	prog := &Program{Atoms: t.atoms, Tops: []interface{}{&TopRaw{Text: t.src}}}
 	opt := CompileOpts{Optimize: true, SwKeys: []Tok{A(t.key)}, SwVals: []Tok{A(t.val)}, Lint: lint}
@@ -397,6 +448,7 @@ func RunC12(env *Env, rep *Report) {
 			}
 		}
 	}
+	cases = append(cases, c12ManyTextsCase(17), c12ManyTextsCase(40))
 	for _, f := range []string{"c", "b", "cb"} {
 		for _, d := range []int{1, 2} {
 			cases = append(cases, c12Case(c12Build("statements-plain-selected", f, true, d == 2), false))
